@@ -45,6 +45,21 @@ def run(tier, rng, C):
             layers.append(('m', (first if j == 0 else []) + es))
         layers.append(M(('target', S('${tmpl}'))))
         stacks.append(layers)
+    for _ in range(150 if tier == 'quick' else 4000):
+        # one document spells a key twice (k and =k: two different strings, one key): its two values are two
+        # layers of that key, in order, merged after the earlier classes' layers; a nested override in the
+        # second spelling discards what ALL earlier layers contributed
+        kinds = list(MC.KINDS)
+        kv = lambda: MC.KINDS[rng.choice(kinds)]()
+        base = M(('k', M(('j', kv()), ('sibling', I(1)))))
+        later = ('m', [(S('k'), M((rng.choice(['j', 'j', '~j']), kv()))),
+                       (S(rng.choice(['=k', '=k', '~k'])), M((rng.choice(['~j', '~j', 'j']), kv()), ('n', I(2))))])
+        st = [base, later]
+        if rng.random() < 0.4:
+            st.append(M(('k', M((rng.choice(['j', '~j']), kv())))))
+        if rng.random() < 0.3:
+            st.insert(0, M(('k', M(('j', kv())))))
+        stacks.append(st)
     stacks += MC.nested_sequences(rng, 1500 if tier == 'quick' else 40000, markers=('', '', '~', '~'))
     cases = MC.build_cases(C, stacks)
     for c in cases:
